@@ -36,7 +36,20 @@ def run(ctx):
                       a.strip(casts=True).children[1].strip(casts=True).value == ft['ft_Length'] for a, p in atoms)
         ctx.check(lengate, 'R06.1', MB + 'decode#length-type-gate', fw[0].loc, 'the step is taken for fields of type Length')
         n = fw[0].args[2].strip(casts=True)
-        okn = n.k == 'DeclRefExpr' and any(kind == 'init' and val is not None and any(c.callee_qp == 'FIX8::fast_atoi' for c in q.calls_in(val)) for (_, kind, val) in q.local_defs(d, n.declid))
+        # ... i.e. it is computed from the value buffer the extractor filled for the Length token, or from the field object built from it
+        ext = [c for c in d.calls() if c.callee_qp == MB + 'extract_element' and len(c.args) >= 4]
+        ctx.need(ext, 'decode: extract_element call not found')
+        vbuf = ext[0].args[3].strip(casts=True)
+        ctx.need(vbuf.k == 'DeclRefExpr', 'decode: value buffer is not a plain local')
+        derived = {vbuf.declid}
+        for _ in range(3):
+            for st in d.all_nodes():
+                if st.k == 'DeclStmt':
+                    for dd, init in st.r.get('decls', []):
+                        if init >= 0 and dd not in derived and any(x.k == 'DeclRefExpr' and x.declid in derived for x in d.node(init).walk()):
+                            derived.add(dd)
+        okn = n.k == 'DeclRefExpr' and any(kind == 'init' and val is not None and any(x.k == 'DeclRefExpr' and x.declid in derived for x in val.walk())
+                                           for (_, kind, val) in q.local_defs(d, n.declid))
         ctx.check(okn, 'R06.1', MB + 'decode#length-value', fw[0].loc, 'the width is the numeric value of the Length field just decoded')
         # the adjacency requirement
         adj = [a for (b, a, p) in q.branches(d, lambda a: any(x.k == 'BinaryOperator' and x.op == '+' and x.children[1].strip(casts=True).value == 1 for x in a.walk()) and
